@@ -8,10 +8,10 @@
 EXTENDS MonRoute
 
 Init == [i |-> 0, viol |-> {}, R |-> RInit,
-         win  |-> [h \in MPeers \cup {"x.r9", ""} |-> <<>>],   \* per origin: end-to-end ids of the most recent answers
+         win  |-> [h \in MPeers \cup {"x.r9", ""} \cup (IF "canon" \in DOMAIN MCfg THEN DOMAIN MCfg.canon ELSE {}) |-> <<>>],   \* per origin: end-to-end ids of the most recent answers
          pend |-> [c \in CIds |-> <<>>]]                      \* requests received and not yet answered: [key, oh, e2e]
 
-Hosts == MPeers \cup {"x.r9", ""}
+Hosts == MPeers \cup {"x.r9", ""} \cup (IF "canon" \in DOMAIN MCfg THEN DOMAIN MCfg.canon ELSE {})
 Push(w, e) == LET a == Append(w, e) IN IF Len(a) > MCfg.node.retx THEN SubSeq(a, Len(a) - MCfg.node.retx + 1, Len(a)) ELSE a
 
 StepN(M, st) ==
@@ -24,7 +24,7 @@ StepN(M, st) ==
       m  == st.act.ms[1]
       p  == R.peer[c0]
       judged == single /\ m.req /\ InService(R, c0) /\ ~IsClosed(st.snap, c0) /\ (m.typed \/ m.oh # "") /\ m.oh \in Hosts
-      isDup == judged /\ m.T /\ \E k \in 1..Len(M0.win[m.oh]) : M0.win[m.oh][k] = m.e2e
+      isDup == judged /\ m.T /\ \E k \in 1..Len(M0.win[Spelled(m)]) : M0.win[Spelled(m)][k] = m.e2e
       deliv == {j \in 1..Len(out) : out[j].ev = "app_req" /\ Key(out[j].m) = Key(m)}
       answers == {j \in 1..Len(out) : out[j].ev = "tx" /\ out[j].c = c0 /\ ~out[j].m.req /\ Key(out[j].m) = Key(m)}
       otherErr == m.cmd # "APP" \/ ~m.typed \/ p \notin MPeers \/ Applicable(m, p) # {}
@@ -37,7 +37,7 @@ StepN(M, st) ==
       sigs == vDup \cup vFalse
       \* ---- bookkeeping: pending requests per connection, windows per origin
       pend1 == IF feed THEN [M0.pend EXCEPT ![c0] = @ \o [j \in 1..Len(SelectSeq(st.act.ms, LAMBDA x : x.req)) |->
-                               LET x == SelectSeq(st.act.ms, LAMBDA y : y.req)[j] IN [key |-> Key(x), oh |-> x.oh, e2e |-> x.e2e]]]
+                               LET x == SelectSeq(st.act.ms, LAMBDA y : y.req)[j] IN [key |-> Key(x), oh |-> Spelled(x), e2e |-> x.e2e]]]
                ELSE M0.pend
       OnOut(A, e) ==
         IF e.ev = "tx" /\ ~e.m.req /\ e.c \in CIds /\ \E k \in 1..Len(A.pend[e.c]) : A.pend[e.c][k].key = Key(e.m)
